@@ -192,7 +192,7 @@ M("r4c-benign-positive-form", ["C12", "C15"], "benign",
 
 # ---- C13 / C04 / C05 -----------------------------------------------------------------------------
 M("r9-revert-F12", ["C04"], "break",
-  [("yaep.c", "      else\n	/* The node has been already processed through another parent.  */\n	*cost = -node->val.anode.cost - 1;\n", "")], "prune_to_minimal/*cost")
+  [("yaep.c", "      else\n	/* The node has been already processed through another parent.\n	   The flag of cost INT_MAX is INT_MIN: add before negating.  */\n	*cost = -(node->val.anode.cost + 1);\n", "")], "prune_to_minimal/*cost")
 M("r9-ambiguous-not-reset", ["C05"], "break",
   [("yaep.c", "  *root = NULL;\n  *ambiguous_p = FALSE;\n  pl_init ();", "  *root = NULL;\n  pl_init ();")], "yaep_parse/*ambiguous_p")
 M("r13-revert-F13-insert", ["C13"], "break",
@@ -845,7 +845,7 @@ M("r13-revert-F26", ["C04"], "break",
 M("r13-costing-guard-reordered-benign", ["C04"], "benign",
   [("yaep.c", "  if (grammar->cost_p)\n    /* We can not build minimal tree", "  if (grammar->cost_p != 0 && result != NULL && grammar->cost_p)\n    /* We can not build minimal tree")])
 M("r13-mark-decode-off-by-one", ["C04"], "break",
-  [("yaep.c", "	*cost = -node->val.anode.cost - 1;", "	*cost = -node->val.anode.cost;")], "mark-codec")
+  [("yaep.c", "	*cost = -(node->val.anode.cost + 1);", "	*cost = -node->val.anode.cost;")], "mark-codec")
 M("t1-start-rule-no-translation", ["C02"], "break", [("yaep.c", "	  rule->order[0] = 0;\n	  rule->trans_len = 1;", "	  rule->trans_len = 1;")], "start-rule-order")
 M("c10-fresh-eof-lookup-before-rules", ["C10"], "break",
   [("yaep.c", "  grammar->axiom = grammar->end_marker = NULL;\n  while ((lhs = (*read_rule)", "  grammar->axiom = NULL;\n  grammar->end_marker = symb_find_by_repr (END_MARKER_NAME);\n  while ((lhs = (*read_rule)"),
